@@ -695,6 +695,9 @@ func (p *Program) ruleNudge(c *Check) {
 			return true
 		}
 		writes++
+		if rhs != nil && p.isNudgeHelperCall(info, rhs, p.src(lhs), isUpImpl) {
+			return true // y = helper(y, …) where the helper is the nudge loop itself
+		}
 		if rhs == nil || !isUpImpl(rhs, p.src(lhs), info, 0) {
 			bad = "the query point's Y is changed by something other than math.Nextafter(y, +Inf) (" + p.Pos(n.Pos()) + "): the half-open rule at endpoints is no longer exact for every coordinate"
 			return true
@@ -727,4 +730,80 @@ func (p *Program) ruleNudge(c *Check) {
 	default:
 		c.OK("E12.nudge", con, p.declPos(fn), "the only writes to the query point's Y are y = math.Nextafter(y, +Inf), repeated while level with an endpoint")
 	}
+}
+
+// isNudgeHelperCall: e is H(lhs, …) with H a repository function whose body
+// is the nudge loop on its first parameter: every write to that parameter is
+// y = math.Nextafter(y, +Inf) inside a loop that tests y against (at least)
+// two values for equality, and H returns the parameter.
+func (p *Program) isNudgeHelperCall(info *types.Info, e ast.Expr, lhs string, isUp func(ast.Expr, string, *types.Info, int) bool) bool {
+	call, ok := ast.Unparen(e).(*ast.CallExpr)
+	if !ok || len(call.Args) < 1 || p.src(call.Args[0]) != lhs {
+		return false
+	}
+	callee, _ := typeutil.Callee(info, call).(*types.Func)
+	if callee == nil || !p.IsRepoPkg(callee.Pkg()) {
+		return false
+	}
+	fd, pkg := p.Decl(callee), p.DeclPkg(callee)
+	if fd == nil || fd.Body == nil || len(fd.Type.Params.List) == 0 || len(fd.Type.Params.List[0].Names) == 0 {
+		return false
+	}
+	hinfo := pkg.TypesInfo
+	par := hinfo.Defs[fd.Type.Params.List[0].Names[0]]
+	writes, good, returns := 0, true, false
+	var stack []ast.Node
+	ast.Inspect(fd.Body, func(n ast.Node) bool {
+		if n == nil {
+			stack = stack[:len(stack)-1]
+			return true
+		}
+		stack = append(stack, n)
+		switch st := n.(type) {
+		case *ast.AssignStmt:
+			for i, l := range st.Lhs {
+				id, ok := l.(*ast.Ident)
+				if !ok || hinfo.ObjectOf(id) != par {
+					continue
+				}
+				writes++
+				if st.Tok != token.ASSIGN || len(st.Lhs) != len(st.Rhs) || !isUp(st.Rhs[i], id.Name, hinfo, 1) {
+					good = false
+					continue
+				}
+				inLoop := false
+				for _, anc := range stack {
+					if f, ok := anc.(*ast.ForStmt); ok && f.Cond != nil {
+						eqs := 0
+						ast.Inspect(f.Cond, func(m ast.Node) bool {
+							if be, ok := m.(*ast.BinaryExpr); ok && be.Op == token.EQL && (p.src(be.X) == id.Name || p.src(be.Y) == id.Name) {
+								eqs++
+							}
+							return true
+						})
+						if eqs >= 2 {
+							inLoop = true
+						}
+					}
+				}
+				if !inLoop {
+					good = false
+				}
+			}
+		case *ast.IncDecStmt:
+			if id, ok := st.X.(*ast.Ident); ok && hinfo.ObjectOf(id) == par {
+				good = false
+			}
+		case *ast.ReturnStmt:
+			if len(st.Results) == 1 {
+				if id, ok := ast.Unparen(st.Results[0]).(*ast.Ident); ok && hinfo.ObjectOf(id) == par {
+					returns = true
+				} else {
+					good = false
+				}
+			}
+		}
+		return true
+	})
+	return good && writes >= 1 && returns
 }
